@@ -241,6 +241,8 @@ TEMPLATES = {
     "frag-ping": _frame(2, b"a", fin=False) + _frame(9, b"p") + _frame(0, b"b"),
     "close": _frame(8, (1000).to_bytes(2, "big") + b"ok"),
     "close-empty": _frame(8, b"") + _frame(1, b"x"),
+    "close-4999": _frame(8, (4999).to_bytes(2, "big")),  # the ends of the private-use range
+    "close-3000": _frame(8, (3000).to_bytes(2, "big") + b"r"),
     "len126": _frame(2, b"abc", force_len=126),
     "len127": _frame(2, b"ab", force_len=127),
     "utf8": _frame(1, "é€".encode()),
